@@ -297,6 +297,14 @@ func loopCounts(p bpath) []int {
 		if e.Kind != "loop" {
 			continue
 		}
+		// `for range n` over an integer: n iterations
+		if rest := strings.TrimPrefix(e.Text, "range "); rest != e.Text {
+			rest = strings.Trim(rest, "()")
+			if n, ok := val(rest, i); ok && (dollarRe.FindString(rest) == rest || isDigits(rest)) {
+				out = append(out, n)
+			}
+			continue
+		}
 		m := forHdrRe.FindStringSubmatch(e.Text)
 		if m == nil || m[1] != m[4] {
 			continue
@@ -432,8 +440,10 @@ func classFlagsN(c *Ctx, rule string) {
 	var bad []string
 	val := cp.recv + ".Val"
 	// "the text ends in i", in either spelling
-	suffixForms := []string{`strings.HasSuffix(` + val + `,"i")`, "len(" + val + ")>0&&" + val + "[len(" + val + ")-1]=='i'"}
-	isSuffix := func(s string) bool { return s == suffixForms[0] || s == suffixForms[1] }
+	suffixForms := []string{`strings.HasSuffix(` + val + `,"i")`, "len(" + val + ")>0&&" + val + "[len(" + val + ")-1]=='i'", `res1(strings.CutSuffix(` + val + `,"i"))`}
+	isSuffix := func(s string) bool { return s == suffixForms[0] || s == suffixForms[1] || s == suffixForms[2] }
+	// the text without the suffix, computed in one step
+	trimmed := []string{`res0(strings.CutSuffix(` + val + `,"i"))`, `strings.TrimSuffix(` + val + `,"i")`}
 	saysSuffix := func(p bpath, neg bool) bool {
 		for _, f := range p.facts() {
 			for _, sf := range suffixForms {
@@ -461,6 +471,17 @@ func classFlagsN(c *Ctx, rule string) {
 		want1 := base + "[1:len(" + base + ")-1]"
 		wantInv := "(" + want1 + ")[0]=='^'"
 		empty := p.holds("len(" + minParens(want1) + ")==0")
+		// the same with the suffix removed by one library call (no branch on the suffix)
+		if !p.holds(cp.recv+".IgnoreCase") && !saysSuffix(p, false) && !saysSuffix(p, true) && !p.holds("!"+cp.recv+".IgnoreCase") {
+			for _, tr := range trimmed {
+				w1 := tr + "[1:len(" + tr + ")-1]"
+				if strings.Contains(inv, tr) || p.holds("len("+w1+")==0") || p.holds("len("+w1+")>0") {
+					want1 = w1
+					wantInv = w1 + "[0]=='^'"
+					empty = p.holds("len(" + w1 + ")==0")
+				}
+			}
+		}
 		if i2 < 0 {
 			if !empty {
 				bad = append(bad, "Inverted is not set on a path with a non-empty class text ["+abbreviate(strings.Join(p.facts(), " "))+"]")
@@ -475,4 +496,17 @@ func classFlagsN(c *Ctx, rule string) {
 		bad = append(bad, "no paths")
 	}
 	r.Check(len(bad) == 0, rule, "G.ast.CharClassMatcher.parse:i-suffix-and-^-prefix", "", g.Where(cp.fd.Pos()), "IgnoreCase = has suffix i; Inverted = starts with ^ (after removing the brackets)", strings.Join(uniq(bad), "; "))
+}
+
+
+func isDigits(s string) bool {
+	if s == "" {
+		return false
+	}
+	for _, r := range s {
+		if r < '0' || r > '9' {
+			return false
+		}
+	}
+	return true
 }
